@@ -33,6 +33,7 @@ type tierSpec struct {
 	EnvLazy      bool           `json:"envlazy"`
 	EnvBoundOK   bool           `json:"envbound_ok"`
 	LazyFires    int            `json:"lazyfires"`
+	NoModels     bool           `json:"nomodels"`
 	NPBound      int            `json:"npbound"`
 	Race         bool           `json:"race"`
 	Skip         bool           `json:"skip"`
@@ -557,7 +558,7 @@ func runCheck(prop, tier string, seed int, repoDir string, spec propSpec, outDir
 		raceNow = ts.Race
 		e.cfg = cfg
 		e.params = ts.Params
-		e.wantModels = true
+		e.wantModels = !ts.NoModels // (a counterexample always gets its model; this is about witness replays)
 		fn := e.findHarness(h.Name)
 		if fn == nil {
 			inconclusive = append(inconclusive, "harness not found: "+h.Name)
